@@ -46,7 +46,10 @@ func c07Session(pos map[int]string) *saml.Session {
 		Values: []saml.AttributeValue{{Type: "xs:string", Value: "first"}, {Type: "xs:string", Value: get(8, "second")}}},
 		// an attribute that is a bare flag: a name, no value (valid SAML) - and one whose only value is the empty string
 		{Name: "urn:example:mfa-done", FriendlyName: "mfa", NameFormat: "urn:oasis:names:tc:SAML:2.0:attrname-format:uri"},
-		{Name: "urn:example:empty-valued", NameFormat: "urn:oasis:names:tc:SAML:2.0:attrname-format:uri", Values: []saml.AttributeValue{{Type: "xs:string", Value: ""}}}}
+		{Name: "urn:example:empty-valued", NameFormat: "urn:oasis:names:tc:SAML:2.0:attrname-format:uri", Values: []saml.AttributeValue{{Type: "xs:string", Value: ""}}},
+		// an attribute whose value is a name identifier with every optional part stated (eduPersonTargetedID)
+		{Name: "urn:oid:1.3.6.1.4.1.5923.1.1.1.10", FriendlyName: "eduPersonTargetedID", NameFormat: "urn:oasis:names:tc:SAML:2.0:attrname-format:uri", Values: []saml.AttributeValue{{NameID: &saml.NameID{
+			Format: "urn:oasis:names:tc:SAML:2.0:nameid-format:persistent", NameQualifier: "https://idp.example.com/nq", SPNameQualifier: "https://sp.example.com/spnq", SPProvidedID: "acct-4711", Value: "targeted-0f3a"}}}}}
 	s.Index = get(11, "session-index-1")
 	s.EduPersonPrincipalName = get(12, "alice-principal@idm.example.com") // set next to a different UserEmail
 	s.SubjectID = get(13, "subject-0001@example.com")
@@ -299,6 +302,9 @@ func attrList(a *saml.Assertion) []string {
 			var vs []string
 			for _, v := range at.Values {
 				vs = append(vs, v.Value)
+				if n := v.NameID; n != nil { // a value that is itself a name identifier (eduPersonTargetedID): all of it
+					vs = append(vs, fmt.Sprintf("NameID{%q fmt=%q nq=%q spnq=%q spid=%q}", n.Value, n.Format, n.NameQualifier, n.SPNameQualifier, n.SPProvidedID))
+				}
 			}
 			out = append(out, fmt.Sprintf("%q/%q/%q=%q", at.Name, at.FriendlyName, at.NameFormat, vs))
 		}
